@@ -54,6 +54,7 @@ func init() {
 					cases = append(cases, apiCase("C03", "send-fixed/two-src", []string{sendFixed("USD", "{ @a @b }", d)}, nil))
 				}
 			}
+			cases = append(cases, mixCases("C03")...)
 			return withObserved(cases, obsEvery(tier))
 		},
 		Bounds: map[string]map[string]interface{}{
@@ -150,6 +151,7 @@ func init() {
 					}
 				}
 			}
+			cases = append(cases, mixCases("C01")...)
 			return withObserved(cases, obsEvery(tier))
 		},
 		Bounds: stdBounds(
@@ -206,6 +208,14 @@ func init() {
 			}
 			cases = append(cases, apiCase("C02", "two-assets", []string{"send [EUR *] (\n source = { @a @b }\n destination = { max [EUR 3] to @d remaining kept }\n)", sendFixed("USD", "{ @b @a }", "{ 1/2 to @d 1/2 to @e }"), "send [EUR *] (\n source = @d\n destination = @a\n)"}, nil))
 			cases = append(cases, apiCase("C02", "two-assets", []string{sendFixed("USD", "@a", "@d"), "send [EUR *] (\n source = @a\n destination = @e\n)"}, nil))
+			// portions that leave less than nothing for `remaining` (remaining first, in the middle, last)
+			for _, d := range []string{"{ remaining to @c 2/3 to @d 2/3 to @e }", "{ 2/3 to @d remaining to @c 2/3 to @e }", "{ 2/3 to @d 2/3 to @e remaining to @c }", "{ 75% to @d $p to @e remaining kept }", "{ remaining kept 75% to @d $p to @e }"} {
+				cases = append(cases, apiCase("C02", "oversubscribed-remaining", []string{sendFixed("USD", "@world", d)}, map[string][2]string{"p": {"portion", "portion:1/2"}}))
+			}
+			for _, sr := range []string{"{ remaining from @a 2/3 from @world 2/3 from @world }", "{ 2/3 from @world 2/3 from @b remaining from @a }"} {
+				cases = append(cases, apiCase("C02", "oversubscribed-remaining", []string{sendFixed("USD", sr, "@d")}, nil))
+			}
+			cases = append(cases, mixCases("C02")...)
 			return withObserved(cases, obsEvery(tier))
 		},
 		Bounds: stdBounds(
@@ -240,6 +250,7 @@ func init() {
 				cases = append(cases, apiCase("C04", "account-variable", []string{sendFixed("USD", "{ $src @a }", "@d")}, map[string][2]string{"src": {"account", "acc:" + alias}}))
 				cases = append(cases, apiCase("C04", "account-variable", []string{sendAll("USD", "{ @b $src }", "@d")}, map[string][2]string{"src": {"account", "acc:" + alias}}))
 			}
+			cases = append(cases, mixCases("C04")...)
 			return withObserved(cases, obsEvery(tier))
 		},
 		Bounds: stdBounds(
@@ -275,6 +286,7 @@ func init() {
 				cases = append(cases, apiCase("C05", "send-all-source", []string{sendAll("USD", "{ @a @b }", d)}, nil))
 				cases = append(cases, apiCase("C05", "dest-variable", []string{sendFixed("USD", "@world", "{ max %C to $dst remaining to @d }")}, map[string][2]string{"dst": {"account", "acc:d"}}))
 			}
+			cases = append(cases, mixCases("C05")...)
 			return withObserved(cases, obsEvery(tier))
 		},
 		Bounds: stdBounds(
@@ -323,6 +335,7 @@ func init() {
 					}
 				}
 			}
+			cases = append(cases, mixCases("C08")...)
 			return withObserved(cases, obsEvery(tier))
 		},
 		Bounds: stdBounds(
